@@ -120,6 +120,7 @@ def run(ctx):
 
     # ---- R8 ----------------------------------------------------------------------
     union_members(ctx, 'C02.R8')
+    generic_bases_walk(ctx, 'C02.R10')
 
     # ---- R9 ----------------------------------------------------------------------
     subclass_child(ctx, 'C02.R9')
@@ -387,3 +388,76 @@ def subclass_child(ctx, RULE):
         F.isinstance_hook = saved_i
         F.stubs.clear()
         F.stubs.update(saved)
+
+
+def generic_bases_walk(ctx, RULE):
+    """The walk over the pseudo-superclasses of a user generic, interpreted on a three-level hierarchy with scripted helpers:
+    each base is sanified against the metadata of the generic that declares it (whose type-variable table binds the base's
+    type variables) — shared by C01 (a wrong table rejects conforming instances) and C02 (a dropped table makes the base
+    ignorable: a shallow isinstance only)."""
+    from sa.fold import AObj, FuncVal, _Abort, _Raise, _call_function
+    G = _gen.engines(ctx)[0]
+    F = G.f
+    Q = 'beartype._check.pep.pep484585.checkpep484585generic'
+    m = ctx.repo.mod(Q)
+    env = F.module_env(Q)
+    fn = env.get('get_hint_pep484585_generic_unsubbed_bases_unerased')
+    ctx.require(isinstance(fn, FuncVal), 'anchor vanished: get_hint_pep484585_generic_unsubbed_bases_unerased')
+    ctx.rule(RULE, 'the pseudo-superclasses of a user generic, decided by interpreting the walk over them on the hierarchy '
+             'Leaf[int] → Middle[str] → list[T] (and a second branch Leaf → Other → dict[K, V]) with scripted helpers: every base is '
+             'sanified with, as its parent metadata, the sanified metadata of the generic that lists it among its bases — '
+             'list[T] with Middle\'s (T bound to str), never with Leaf\'s (T bound to int) — and every non-generic base is '
+             'returned exactly once with that metadata')
+
+    class _Sane(AObj):
+        def __init__(self, hint, parent):
+            self.hint, self.parent = hint, parent
+
+        def __repr__(self):
+            return f'<sane {self.hint} under {getattr(self.parent, "hint", self.parent)}>'
+    BASES = {'Leaf': ['Middle', 'Other'], 'Middle': ['list[T]'], 'Other': ['dict[K, V]', 'Deep'], 'Deep': ['set[T]']}
+    USER = {'Leaf', 'Middle', 'Other', 'Deep'}
+    log = []
+
+    def sanify(*a, **k):
+        s_ = _Sane(k.get('hint'), k.get('hint_parent_sane'))
+        log.append(s_)
+        return s_
+    names = {'get_hint_pep484585_generic_bases_unerased': lambda *a, **k: tuple(BASES.get(k.get('hint', a[0] if a else None), ())),
+             'get_hint_pep484585_generic_base_extrinsic_sign_or_none': lambda *a, **k: None,
+             'sanify_hint_child': sanify,
+             'is_hint_pep484585_generic_user': lambda h, *a, **k: h in USER,
+             'get_hint_pep_sign_or_none': lambda h, *a, **k: ('SIGN', h)}
+    saved = {}
+    for nm, py in names.items():
+        v = env.get(nm)
+        ctx.require(isinstance(v, FuncVal), f'anchor vanished: {nm} in the generic-bases walker')
+        saved[v.qual] = F.stubs.get(v.qual)
+        F.stubs[v.qual] = (lambda py: (lambda e, a, k: py(*a, **k)))(py)
+    saved_i = F.isinstance_hook
+    F.isinstance_hook = lambda o, c: True if isinstance(o, _Sane) else (saved_i(o, c) if saved_i else None)
+    root = _Sane('Leaf', None)
+    try:
+        try:
+            out = _call_function(F, fn, ['CALL', root, 'CONF', '', 'EXC'], {}, 1)
+        except (_Abort, _Raise) as ex:
+            ctx.require(False, f'cannot interpret {fn.qual}: {ex}')
+    finally:
+        F.isinstance_hook = saved_i
+        for q, old in saved.items():
+            if old is None:
+                F.stubs.pop(q, None)
+            else:
+                F.stubs[q] = old
+    declared_by = {b: g for g, bs in BASES.items() for b in bs}
+    n = 0
+    for s_ in log:
+        n += 1
+        want = declared_by.get(s_.hint)
+        got = getattr(s_.parent, 'hint', None)
+        ctx.ob(RULE, f'generic-bases:sanified-under-declaring-generic:{s_.hint}', m.where(fn.node),
+               f'{s_.hint} is sanified under the metadata of {want}, which declares it', got == want, f'sanified under {got!r}')
+    leaves = sorted(str(x[0].hint) for x in out) if isinstance(out, tuple) else None
+    ctx.ob(RULE, 'generic-bases:every-leaf-base-once', m.where(fn.node), 'every non-generic pseudo-superclass is returned exactly once',
+           leaves == ['dict[K, V]', 'list[T]', 'set[T]'], f'returned {leaves}')
+    ctx.floor(RULE, n, 6, 'pseudo-superclasses sanified')
